@@ -5,8 +5,9 @@
 //   1  run-time cnl::_impl::parse<T>(char const*): one program per (T, base, short|long), T at least 64 bits
 //      wide (narrower T make parse() ill-formed: brace-narrowing of a non-constant; Clang rejects it).
 //      short = EVERY token `[+-]? prefix digit (digit | ' digit)*` whose body is at most 6 (quick 5)
-//      characters over the reduced digit alphabets; long = every digit count up to the widest T
-//      (+2), first x fill x last digit, x separator layout x sign x zero padding.
+//      characters over the reduced digit alphabets (thorough: all decimal and octal digits, 9 hex
+//      digits); long = every digit count up to the widest T (+2), first x fill x last digit and the
+//      alphabet in rotation, x separator layout x sign x zero padding.
 //      Oracle: own token reader + Big (decimal/hex/octal/binary positional value).
 //      Precondition (exact, before CNL runs): the value lies in [lowest(T), max(T)].
 //   2  literals _c / _cnl / _cnl2 / _wide: generated lines L("token", negate, expression); the object
